@@ -19,7 +19,7 @@ Import ListNotations.
 Open Scope bs_scope.
 Open Scope res_scope.
 
-(* partial correctness: NoCrash's outcome predicate with every exception admissible *)
+(* partial correctness: NoCrash's outcome predicate with every exception acceptable *)
 Definition anyx (_ : exn) : Prop := True.
 Notation pc := (sp anyx).
 Lemma anyxH c : anyx (HL7 c). Proof. exact I. Qed.
